@@ -16,10 +16,12 @@
 (*                      binding belongs to C19, not to the parameter-store check)      *)
 (*               ORACLE "1" to judge evaluator values with the numeric oracle          *)
 (***************************************************************************************)
-EXTENDS Naturals, Sequences, FiniteSets, TLC, Json, IOUtils, MasaOracle
+EXTENDS Integers, Sequences, FiniteSets, TLC, Json, IOUtils, SequencesExt, MasaOracle
 
 VARIABLES reg, sel, live, status, dflt, memo, act, l,
-          pairs   \* history: reduction-pair label -> first value seen (C20)
+          pairs,  \* history: reduction-pair label -> first value seen (C20)
+          acc     \* history (ACCSTAT=1): <<solution, evaluator>> -> error of every judged result, in bits of
+                  \* u_p * mag, per precision (C09: long double must not be limited to double accuracy)
 
 Cat == INSTANCE MasaCatalog
 
@@ -56,9 +58,8 @@ M == INSTANCE Masa WITH Prec <- TPrec, Catalog <- Cat!Catalog, Build <- TBuild,
                         InitDflt <- TInitDflt, UseMemo <- ~Relaxed("MEMO"), EvalAccept <- TEvalAccept,
                         ArgsRegular <- TArgsRegular
 
-tvars == <<reg, sel, live, status, dflt, memo, act, l, pairs>>
+tvars == <<reg, sel, live, status, dflt, memo, act, l, pairs, acc>>
 
-Range(s) == {s[i] : i \in DOMAIN s}
 Ev == Log[l]
 \* the observed outcome: the event itself, with the list-valued observations turned into sets
 Out(e) == [e EXCEPT !.tags = Range(e.tags)]
@@ -96,10 +97,41 @@ PairStep(e) ==
                                   e.fn, e.sig, <<e.a, e.di, e.ni, e.pair>>, e.cb, FALSE)
                 IN  Len(x) > 1 /\ NCloseTo(NFromStr(pairs[key]), NFromStr(e.ret), x, PairKBits, e.p)
        ELSE pairs' = [k \in DOMAIN pairs \cup {key} |-> IF k = key THEN e.ret ELSE pairs[k]]
-TEval      == IsEvent("eval")    /\ M!Eval(Ev.p, Ev.api, Ev.fn, Ev.sig, <<Ev.a, Ev.di, Ev.ni, Ev.pair>>, Ev.cb, Out(Ev)) /\ LiveBound(Ev) /\ PairStep(Ev)
+\* C09: accuracy statistics.  The same algorithm run in long double must be as accurate, in long double
+\* roundoffs, as it is in double roundoffs: a double temporary or constant inside the long double
+\* instantiation shifts its error distribution up by about 11 bits in the terms it contaminates.
+UseAcc == "ACCSTAT" \in DOMAIN IOEnv /\ IOEnv.ACCSTAT = "1"
+AccStep(e) ==
+  IF ~UseAcc \/ ~UseOracle \/ e.end # "ret" \/ sel[e.p] = "$none" THEN UNCHANGED acc
+  ELSE LET inst == reg[e.p][sel[e.p]]
+           par  == [k \in DOMAIN inst.par |-> M!ParVal(e.p, inst, k)]
+           x == IF \E k \in DOMAIN par : par[k] = "$unk" THEN <<>>
+                ELSE Expected(inst.sol, par, [k \in DOMAIN inst.vec |-> M!VecVal(e.p, inst, k)],
+                              e.fn, e.sig, <<e.a, e.di, e.ni, e.pair>>, e.cb, IsKnown(inst.sol, e.fn))
+           key == <<inst.sol, e.fn>>
+       IN  IF Len(x) <= 1 \/ (IsKnown(inst.sol, e.fn) /\ ~HasVariant(inst.sol, e.fn)) THEN UNCHANGED acc
+           ELSE LET b0 == NErrBits(NFromStr(e.ret), x, e.p)
+                    b  == IF b0 < -20 THEN -20 ELSE b0
+                    old == IF key \in DOMAIN acc THEN acc[key] ELSE [d |-> <<>>, ld |-> <<>>]
+                    new == IF e.p = "d" THEN [old EXCEPT !.d = Append(@, b)] ELSE [old EXCEPT !.ld = Append(@, b)]
+                IN  acc' = [k \in DOMAIN acc \cup {key} |-> IF k = key THEN new ELSE acc[k]]
+Median(s) == SortSeq(s, <)[(Len(s) + 1) \div 2]
+MaxOf(s) == SortSeq(s, <)[Len(s)]
+AccMinSamples == 6
+\* thresholds (bits) from the measured spread of the statistic for code that is clean in both precisions
+\* (195 evaluator groups x 2 seeds, n ~ 10: median shift within -3..3, maximum shift within -3..3):
+\* a shift of the median by more than 4 bits (more than 2 with >= 64 samples), or of the maximum by more
+\* than 4 bits, is not roundoff noise.  The wrapper confirms a rejection on a fresh sample ten times as large.
+MedShift(n) == IF n >= 64 THEN 2 ELSE 4
+AccBad == {k \in DOMAIN acc : /\ Len(acc[k].d) >= AccMinSamples /\ Len(acc[k].ld) >= AccMinSamples
+                              /\ \/ Median(acc[k].ld) > Median(acc[k].d) + MedShift(Len(acc[k].ld)) /\ Median(acc[k].ld) > -6
+                                 \/ MaxOf(acc[k].ld) > MaxOf(acc[k].d) + 4 /\ MaxOf(acc[k].ld) > -3}
+AccOK == IF Relaxed("ACC") THEN TRUE
+         ELSE \A k \in AccBad : PrintT("ACCFAIL " \o k[1] \o " " \o k[2] \o " " \o ToString(Median(acc[k].d)) \o " " \o ToString(Median(acc[k].ld)) \o " max " \o ToString(MaxOf(acc[k].d)) \o " " \o ToString(MaxOf(acc[k].ld))) /\ FALSE
+TEval      == IsEvent("eval")    /\ M!Eval(Ev.p, Ev.api, Ev.fn, Ev.sig, <<Ev.a, Ev.di, Ev.ni, Ev.pair>>, Ev.cb, Out(Ev)) /\ LiveBound(Ev) /\ PairStep(Ev) /\ AccStep(Ev)
 
 \* "end": the script ran to completion; the process is still running, nothing changed
-TEnd == /\ IsEvent("end") /\ status = "run"
+TEnd == /\ IsEvent("end") /\ status = "run" /\ AccOK
         /\ IF Relaxed("LIVE") THEN TRUE ELSE (Ev.live[1] = live["d"] /\ Ev.live[2] = live["ld"])
         /\ UNCHANGED <<reg, sel, live, status, dflt, memo, act>>
 \* "fini": after every static destructor ran, nothing the library allocated is left (C19)
@@ -112,11 +144,11 @@ TReset == /\ IsEvent("reset")
           /\ live' = [p \in TPrec |-> 0] /\ status' = "run"
           \* purity holds across processes too: executions of one group share the memo
           /\ memo' = IF "keep" \in DOMAIN Ev /\ Ev.keep THEN memo ELSE <<>>
-          /\ act' = [name |-> "start"] /\ UNCHANGED dflt /\ pairs' = <<>>
+          /\ act' = [name |-> "start"] /\ UNCHANGED dflt /\ pairs' = <<>> /\ acc' = <<>>
 
 TNext == \/ TEval
          \/ TReset
-         \/ /\ UNCHANGED pairs
+         \/ /\ UNCHANGED <<pairs, acc>>
             /\ \/ TInit \/ TSelect \/ TList \/ TPrintId \/ TName \/ TDim
                \/ TSetParam \/ TGetParam \/ TInitParam \/ TPurge \/ TSanity
                \/ TSetVec \/ TGetVec \/ TDispP \/ TDispV
@@ -125,7 +157,7 @@ TNext == \/ TEval
 \* after exit(1) the process may only be followed by its fini record or a reset
 ExitedQuiet == status = "exited" => (l > Len(Log) \/ Log[l].op \in {"fini", "reset"})
 
-TInit0 == M!Init0 /\ l = 1 /\ pairs = <<>>
+TInit0 == M!Init0 /\ l = 1 /\ pairs = <<>> /\ acc = <<>>
 TSpec  == TInit0 /\ [][TNext]_tvars
 
 \* acceptance: every line consumed
